@@ -41,7 +41,9 @@ def main():
             r=subprocess.run(['patch','-p1','-s','-d',d,'-i',p],capture_output=True,text=True)
             if r.returncode!=0:
                 return name, False, ['FAIL (patch does not apply) '+name+' '+r.stdout[-300:]]
-            cmd=[V+'/bin/govc','check','-prop',prop,'-repo',d,'-no-evidence','-verif',vd]
+            # a must-fail run only has to see the expected obligation fail: a short per-obligation limit keeps the
+            # corpus fast (an obligation that times out counts as failed, which is what is expected here)
+            cmd=[V+'/bin/govc','check','-prop',prop,'-repo',d,'-no-evidence','-verif',vd,'-timeout',os.environ.get('SELFTEST_TIMEOUT','40')]
             # obligations are generated per function: when the expected obligation names a
             # function, only that function's obligations are generated (same verdict, much faster)
             fn = obl.split('/')[0].split('.')[-1] if obl else ''
@@ -70,7 +72,7 @@ def main():
             shutil.rmtree(vd,ignore_errors=True)
     todo=[it for it in items if not only or any(it[1].startswith(o) or o in it[1] for o in only)]
     from concurrent.futures import ThreadPoolExecutor
-    jobs=int(os.environ.get('SELFTEST_JOBS','3'))
+    jobs=int(os.environ.get('SELFTEST_JOBS','4'))
     with ThreadPoolExecutor(max_workers=jobs) as ex:
         for name, good, lines in ex.map(run_one, todo):
             for l in lines: print(l, flush=True)
